@@ -326,6 +326,21 @@ def r4(ctx, cfg):
     if f is None:
         return
     ret = deep_peel(P.ret(f))
+    # a shortcut for the factor that makes the whole product zero (`if stake.is_zero() { return Decimal::zero() }`) answers what the
+    # formula would: accepted only under exactly that test on one of the formula's own numerator inputs
+    zero_under = None
+    cases = q.value_cases(P, f, 0)
+    zs = [(v, cs) for v, cs, site in cases if peel(v)[0] == "call" and peel(v)[1].endswith("Decimal::zero")]
+    rest = [v for v, cs, site in cases if not (peel(v)[0] == "call" and peel(v)[1].endswith("Decimal::zero"))]
+    if zs and len(rest) == 1:
+        oks = []
+        for v, cs in zs:
+            tests = [c[1] for e, c in cs if c[0] == "bool" and not q.is_derived(c)]
+            oks.append(len(tests) == 1 and tests[0][0] == "is_zero" and tests[0][2] is True and peel(tests[0][1][0])[0] == "param" and
+                       peel(tests[0][1][0])[2] in ("stake", "interest_rate"))
+        if all(oks):
+            ret = deep_peel(rest[0])
+            zero_under = True
     c = F.consts.get("staking::YEAR")
     year = 1
     for l in (c or {}).get("lits", []):
